@@ -85,11 +85,12 @@ Fixpoint eval (c : cond) (v : layer) {struct c} : bool :=
   | CCls _ => false
   end.
 
-(** The value of the expression (declarative reading used as the oracle). *)
+(** The value of the expression (declarative reading used as the oracle): all =
+    conjunction, any = disjunction — the empty disjunction is false. *)
 Fixpoint sem (c : cond) (v : layer) {struct c} : bool :=
   match c with
   | CAll l => forallb (fun x => sem x v) l
-  | CAny l => match l with [] => true | _ => existsb (fun x => sem x v) l end
+  | CAny l => existsb (fun x => sem x v) l
   | CNot c => negb (sem c v)
   | CBool b => b
   | CSrc ip len =>
@@ -108,6 +109,16 @@ Fixpoint sem (c : cond) (v : layer) {struct c} : bool :=
     | Some p => match ports_of p with Some (_, d) => (lo <=? d) && (d <=? hi) | None => false end
     | None => false end
   | CCls _ => false
+  end.
+
+(** the known finding: the tree contains an [any] without operands, which the code
+    evaluates to true (cond.go CondAnyOf.Eval: len(c) == 0 => true) *)
+Fixpoint has_empty_any (c : cond) : bool :=
+  match c with
+  | CAny [] => true
+  | CAll l | CAny l => existsb has_empty_any l
+  | CNot c => has_empty_any c
+  | _ => false
   end.
 
 (** ------------------------------------------------------------------
